@@ -85,6 +85,11 @@ void all(std::ostream& os) {
   trompeloeil::print(os, c);
   trompeloeil::print(os, nc);
   trompeloeil::print(os, std::ref(i));
+  // how the arguments of a mock call arrive: reference_wrapper of the (possibly const) parameter type
+  trompeloeil::print(os, std::cref(pr));
+  trompeloeil::print(os, std::cref(tp));
+  trompeloeil::print(os, std::cref(c));
+  trompeloeil::print(os, std::cref(v));
   trompeloeil::print(os, 'c');
   trompeloeil::print(os, 1.5);
   trompeloeil::print(os, true);
